@@ -367,6 +367,8 @@ def model_to_inputs(ctx, model):
     vals = {n: _val_of(model, c) for n, c in ctx.vars.items()}
     funcs = {}
     for name, (decl, seen) in ctx.apps.items():
+        if decl is None:
+            continue
         entries = {}
         for args in seen:
             try:
@@ -393,7 +395,7 @@ def small_model_constraints(ctx, bound):
         if z3.is_int(c) and "[" not in n:  # text code points keep their own ranges
             cs.append(z3.And(c >= -bound, c <= bound))
     for name, (decl, seen) in ctx.apps.items():
-        if name == "W":
+        if name == "W" or decl is None:
             continue
         for a in seen:
             cs.append(z3.And(decl(*a) >= -bound, decl(*a) <= bound))
@@ -530,8 +532,14 @@ def run_instance(module, inst, tier, seed, concrete=None, refine=None):
         # 3. validation of the path witness against the un-lifted implementation
         if res["validated"] + len(res["validation_mismatch"]) < nvalidate and pr.witness is not None:
             wit = pr.witness
+            pin = text.dbcs_refine(ctx)  # environment facts the proxies leave open (double-byte codec results)
+            if pin:
+                r, m = ctx._check(*pin, timeout_ms=3000)
+                if r != "sat":
+                    return  # this path needs a byte pair whose real decoding is not in the known list: not validated
+                wit = m
             for bound in (8, 64, 4096):
-                r, m = ctx._check(*small_model_constraints(ctx, bound), timeout_ms=2000)
+                r, m = ctx._check(*pin, *small_model_constraints(ctx, bound), timeout_ms=2000)
                 if r == "sat":
                     wit = m
                     break
